@@ -431,12 +431,11 @@ def lib_decode(R):
         r = c.init("lzma_microlzma_decoder", len(R.out), R.consumed, 1, info["dict_size"])
     else:
         specs = []
-        keep = []
         for fid, opt in info["specs"]:
             if fid == lz.FILTER_LZMA1EXT:
-                o2 = lz.OptLzma.from_buffer_copy(bytes(opt)) if False else opt
-                # decoder side of LZMA1EXT: the size must be known when there is no end marker
-                o2.ext_size_low = R.consumed & 0xFFFFFFFF; o2.ext_size_high = R.consumed >> 32
+                # decoder side of LZMA1EXT: the size must be known when there is no end marker (the encoder is done
+                # with the options structure, so it can be reused)
+                opt.ext_size_low = R.consumed & 0xFFFFFFFF; opt.ext_size_high = R.consumed >> 32
             specs.append((fid, opt))
         f = lz.make_filters(specs)
         c.keep = f
